@@ -1149,6 +1149,9 @@ pub fn run_c17(cfg: &Config) -> i32 {
 			if k % 64 == 2 {
 				inject_token(&mut rng, &mut r);
 			}
+			if k % 32 == 9 {
+				r = gen::gen_records(&mut rng);
+			}
 			if k % 128 == 7 {
 				let d = rng.range(100, 120);
 				rep.max("deepest_serialized_nesting", d as u64);
@@ -1464,6 +1467,10 @@ pub fn run_c18(cfg: &Config) -> i32 {
 			if k % 2 == 0 {
 				let s = if k % 8 == 0 {
 					serde_json::Value::Number(gen_sj_number(&mut rng))
+				} else if k % 32 == 6 {
+					// arrays of records, as serde_json holds them (members sorted by key)
+					let r = gen::gen_records(&mut rng);
+					serde_json::from_str(&doc_of(&r)).unwrap_or(serde_json::Value::Null)
 				} else if k % 64 == 2 {
 					let d = rng.range(100, 300);
 					rep.max("deepest_converted_nesting", d as u64);
@@ -1510,6 +1517,8 @@ pub fn run_c18(cfg: &Config) -> i32 {
 						}
 						_ => gen_c17_number(&mut rng),
 					})
+				} else if k % 32 == 7 {
+					gen::gen_records(&mut rng)
 				} else if k % 64 == 5 {
 					let d = rng.range(100, 300);
 					rep.max("deepest_converted_nesting", d as u64);
